@@ -30,9 +30,14 @@ def run(ctx):
     # a few deeper ones (depth 4 over 4 variables)
     for _ in range(500 if not thorough else 10000):
         cases.append((rng.sample(bdd_scope.VARS, 4), bdd_rtc.rand_expr(rng, bdd_scope.VARS, 4)))
+    # unbracketed chains of 3-6 operands (one n-ary node for and/or)
+    for n in (2, 3, 4):
+        for e in bdd_rtc.chains(bdd_scope.VARS[:n], rng, 150 if not thorough else 3000):
+            cases.append((rng.sample(bdd_scope.VARS[:n], n), e))
     driver.run_cases(
-        ctx, 'notations', 'vf.rtc.bdd_rtc', 'check_notation_case', cases,
+        ctx, 'notations', 'vf.rtc.bdd_rtc', 'check_notation_case', bdd_scope.rename_cases(cases),
         rule='Boolean expressions up to depth 4 over <=4 variables (exhaustive to depth 2 over <=2 variables, sampled beyond) x argument orders: '
+             'chains of 3-6 operands; each written fully bracketed and with the fewest brackets Python needs (a and b and c), in both notations; half of the cases over multi-character variable names; '
              'lambda form == expression form (and identical root), and/or/not == &,|,~, OBDD(str(o.root), o.ordering) == o, OBDD(str(o)) == o, '
              'a missing variable raises RuntimeError; distinct by literal')
     driver.run_cases(ctx, 'non-boolean-syntax', 'vf.rtc.bdd_rtc', 'check_syntax_case', list(bdd_rtc.BAD_SYNTAX),
